@@ -93,6 +93,7 @@ func (j *wireJournal) serve(c net.Conn) {
 }
 
 func runWireF5() {
+	family = "wire"
 	runSeeded(0, func(*rand.Rand) { wireCase() })
 }
 
